@@ -66,8 +66,12 @@ class Runtime:
         except RuntimeError:
             t = None
         if t is not None and t in self.tok_by_task:
-            return self.tok_by_task[t]
-        return self.tok_by_thread.get(threading.get_ident())
+            tok = self.tok_by_task[t]
+        else:
+            tok = self.tok_by_thread.get(threading.get_ident())
+        if tok is not None and self.tok_op.get(tok) != CUR_OP.get():
+            return None   # left over from an earlier operation of this thread / task
+        return tok
 
     def token_for_scheduler(self, pool: Any = None) -> Optional[int]:
         """Token of the scheduler run the current task belongs to; a task that uses a pool created by an EARLIER run
@@ -157,8 +161,11 @@ class SimPool(cf.Executor):
             task = None
         # an execution token identifies one scheduler run; a second pool created by the same scheduler run (same task,
         # earlier pool still open) joins that execution so that in-flight counts are per execution, not per pool
+        # ... and so does the first pool of a scheduler run that has already produced events (pool created lazily, after
+        # nodes were run inline): the execution began with its first event, not with its pool
         prev = rt.tok_by_task.get(task) if task is not None else rt.tok_by_thread.get(threading.get_ident())
-        if prev is not None and any(not q.closed for q in rt.pools_by_tok.get(prev, [])):
+        prev_pools = rt.pools_by_tok.get(prev, []) if prev is not None else []
+        if prev is not None and rt.tok_op.get(prev) == CUR_OP.get() and (not prev_pools or any(not q.closed for q in prev_pools)):
             self.token = prev
             joined = True
         else:
@@ -614,7 +621,8 @@ def install_post() -> Dict[str, Any]:
         def remove_root_node(self: Any, nid: Any) -> Any:
             rt = RT
             if rt is not None and rt.sim.me() is not None:
-                rt.sim.ev("retire", rt.cur_token(), nid)
+                # (a scheduler may prune nodes before it has created its pool: the execution begins with its first event)
+                rt.sim.ev("retire", rt.token_for_scheduler(), nid)
             return orr(self, nid)
 
         DiGraphEx.remove_root_node = remove_root_node  # type: ignore[method-assign]
